@@ -18,4 +18,13 @@ def plan(tier):
 
 
 def main(tier):
-    return simcheck.run("C06", tier, plan(tier), ORACLE)
+    from ..sim import treekill
+    r = treekill.run_all(4 if tier == "quick" else 5, 1)
+    viols = [dict(signature=sig, msg=msg, case=case) for sig, msg, case in r["violations"]]
+    return simcheck.run("C06", tier, plan(tier), ORACLE, extra_violations=viols,
+                        extra_cov=dict(process_trees=dict(executions=r["executions"],
+                                                          states=r["states"], samples=r["samples"],
+                                                          rule="every rooted tree with <= 4 (quick) / 5 "
+                                                               "(thorough) processes x psutil present/absent, "
+                                                               "real kill_process_tree, all schedules with one "
+                                                               "deviation incl. the death of a leaf descendant")))
